@@ -7,6 +7,7 @@ a real framework.Statement running on a real framework.Session.
 import json
 import os
 
+import st_cluster
 import st_stmt
 import vlib
 
@@ -15,6 +16,10 @@ LEVEL = "model_checking"
 
 def run(ctx):
     st_stmt.run_stage(ctx, ["C13_"])
+    # cluster part: the Cache calls of real scheduling cycles (every action, statement commit brackets from the
+    # verif hook): each pod is bound / nominated / evicted at most once per committed statement and per cycle
+    n = 200 if ctx.quick else 5000
+    st_cluster.run_stage(ctx, ["C13_"], [("mixed", n // 2), ("full", n // 4), ("elastic", n // 4)])
 
 
 def replay(ctx, obj):
